@@ -23,6 +23,7 @@ RULE_TEXT = (
     "was evaluated; distinct = interleaving signature"
 )
 PROBES = [
+    "stalls",
     "crash_between_subscribe_and_ack",
     "reboot_evidence_with_offer_in_one_message",
     "reboot_evidence_with_subscribe_in_one_message",
@@ -204,6 +205,9 @@ def gen(seed, idx, tier):
             ops.append({"k": "node", "t": t2, "n": n, "f": "restart"})
             state[n] = "run"
             t = max(t, t2) if r.random() < 0.5 else t
+    if r.random() < 0.2:
+        # a node is frozen for a while (a long GC pause, a suspended VM): its timers and its input wait
+        ops.append({"k": "stall", "t": round(r.uniform(0.2, Tf), 6) if not il or r.random() < 0.4 else r.choice(il) + r.choice(OFFS), "n": r.choice("AB"), "d": r.choice([0.05, 0.5, 1.5, 3.0])})
     ops.sort(key=lambda o: o["t"])
     for w in range(r.choice([0, 0, 1, 1, 2])):
         t0 = round(r.uniform(0.0, Tf), 3)
@@ -299,6 +303,7 @@ def check(plan, res):
                     ctx = "infinite-ttl:second-reboot-detection-on-other-channel"
                 viol.append(("CONVERGED-SUBSCRIPTION", {"msg": f"idle at {T:.6f} (D={D:.6f}, window from {w0:.6f}): offering={a_off}, watcher running={b_run}, offerer's latest notification={latest_sub}", "context": ctx}))
     probes["converged_checks"] = nconv
+    probes["stalls"] = res.stats.get("stall", 0)
     if plan.get("aligned"):
         probes["disturbance_at_recorded_instant"] = 1
     # crash between Subscribe and its acknowledgement
